@@ -157,7 +157,8 @@ GenCmd(ed, sd, t, j) ==
 GenLineCmds(ed, sd, t) ==
     LET c1 == GenCmd(ed, sd, t, 0) IN
     (* "rs" and "!" take the rest of their line; the commands of @ are a command line of their own (own undo step) *)
-    IF Pick(sd, t, 50, 8) = 0 /\ c1.k \notin {"g", "v", "null", "rs", "!", "@"}
+    (* after u / redo the rows of the marks are not constrained: no second command (it may address a mark) on that line *)
+    IF Pick(sd, t, 50, 8) = 0 /\ c1.k \notin {"g", "v", "null", "rs", "!", "@", "u", "redo"}
     THEN LET c2 == GenCmd(ed, sd, t, 60) IN IF c2.k \in {"null", "@"} THEN <<c1>> ELSE <<c1, c2>>
     ELSE <<c1>>
 
